@@ -109,9 +109,37 @@ impl TomlConverter {
         })
     }
 
+    /// Equality that, unlike PartialEq, holds for NaN.
+    fn same_value(a: &toml::Value, b: &toml::Value) -> bool {
+        match (a, b) {
+            (toml::Value::Float(x), toml::Value::Float(y)) => x == y || (x.is_nan() && y.is_nan()),
+            (toml::Value::Array(x), toml::Value::Array(y)) => {
+                x.len() == y.len() && x.iter().zip(y.iter()).all(|(l, r)| Self::same_value(l, r))
+            }
+            (toml::Value::Table(x), toml::Value::Table(y)) => {
+                x.len() == y.len()
+                    && x.iter()
+                        .all(|(k, l)| y.get(k).is_some_and(|r| Self::same_value(l, r)))
+            }
+            _ => a == b,
+        }
+    }
+
     fn write(&self, v: &Val, w: &mut dyn Write) -> ConvertResult {
         let toml_val = self.convert_value(v)?;
+        // A toml document is a table.
+        if !toml_val.is_table() {
+            let err = SimpleError::new("Only a tuple can be converted to a Toml document!");
+            return Err(Box::new(err));
+        }
         let toml_bytes = toml::ser::to_string_pretty(&toml_val)?;
+        // The serializer writes garbage for some values it can not express,
+        // e.g. tables inside nested or mixed arrays. Never emit that.
+        let reparsed = toml::from_str::<toml::Value>(&toml_bytes).ok();
+        if !reparsed.is_some_and(|r| Self::same_value(&r, &toml_val)) {
+            let err = SimpleError::new("This value can not be expressed as a Toml document!");
+            return Err(Box::new(err));
+        }
         write!(w, "{}", toml_bytes)?;
         Ok(())
     }
